@@ -676,6 +676,66 @@ def rule_r12(prog, res):
     res.floor('R12', 'create_in_document implementations', n, 5)
 
 
+# ------------------------------------------------------------------ R13
+def rule_r13(prog, res):
+    res.rule('R13', 'None travels as null and back: every kind check of a '
+             'dict-document protocol exempts a null for a nullable member, '
+             'and a null complex member is read as None, not as an empty '
+             'message')
+    from .. import guardspec
+    h = prog.cls('spyne.protocol.dictdoc.hier:HierDictDocument')
+    n = 0
+    for c in [h] + list(prog.subclasses(h, strict=True)):
+        f = c.methods.get('validate')
+        if f is None or f.cls is not c:
+            continue
+        ps = [p_ for p_ in f.params() if p_ != 'self']
+        if len(ps) < 3:
+            continue
+        val = ps[2]
+        for r in walk_no_defs(f.node):
+            if not isinstance(r, ast.Raise):
+                continue
+            n += 1
+            atoms = guardspec.atoms_at(r, f.node)
+            ok = any(('%s is None' % val) in t or ('%s is not None' % val)
+                     in t for t, _ in atoms)
+            where = '%s:%d' % (f.module.relpath, r.lineno)
+            res.ob('R13', where, '%s.validate rejects under %s' % (
+                c.name, [t for t, _ in atoms][:4]), 'ok' if ok else 'VIOLATED')
+            if not ok:
+                res.finding('R13', '%s.validate|null-not-exempt' % c.name,
+                            where, '%s.validate can reject without having '
+                            'looked at whether the value is None: the null '
+                            'the writer emits for a None member of a nullable '
+                            'type is refused under soft validation' % c.name)
+    res.floor('R13', 'rejections in dict-document kind checks', n, 3)
+    f = h.methods['_from_dict_value']
+    k = 0
+    for call in calls_in(f.node):
+        if call_name(call) != '_doc_to_object':
+            continue
+        st = call
+        while not isinstance(st, ast.stmt):
+            st = st._parent
+        atoms = guardspec.atoms_at(st, f.node)
+        if not any('ComplexModelBase' in t and pol for t, pol in atoms):
+            continue
+        k += 1
+        ok = any(t == 'inst is None' and not pol for t, pol in atoms)
+        where = '%s:%d' % (f.module.relpath, call.lineno)
+        res.ob('R13', where, '_from_dict_value reads a complex member %s' % (
+            'only when it is not null' if ok else 'even when it is null'),
+            'ok' if ok else 'VIOLATED')
+        if not ok:
+            res.finding('R13', 'HierDictDocument._from_dict_value|null-'
+                        'member-as-message', where, 'a null complex member is '
+                        'handed to _doc_to_object, which answers "no '
+                        'document" with an empty argument list: the member '
+                        'is delivered as [] where None was sent')
+    res.floor('R13', 'complex member reads', k, 1)
+
+
 def run(prog, res, tier):
     res.run_rule(rule_r1, prog, res)
     res.run_rule(rule_r2, prog, res)
@@ -689,6 +749,7 @@ def run(prog, res, tier):
     res.run_rule(rule_r10, prog, res)
     res.run_rule(rule_r11, prog, res)
     res.run_rule(rule_r12, prog, res)
+    res.run_rule(rule_r13, prog, res)
 
 
 _H = 'spyne/protocol/dictdoc/hier.py'
@@ -697,6 +758,21 @@ _J = 'spyne/protocol/json.py'
 _Y = 'spyne/protocol/yaml.py'
 
 MUTANTS = [
+    Mutant('json-kind-check-rejects-null', 'R13', 'fire', _J,
+           in_func('JsonDocument.validate',
+                   "        if val is None and self.get_cls_attrs(cls)."
+                   "nullable:\n            return\n", ""),
+           'null-not-exempt'),
+    Mutant('null-member-read-as-message', 'R13', 'fire', _H,
+           in_func('HierDictDocument._from_dict_value',
+                   "                if inst is None:\n"
+                   "                    # a null member is None, not an empty "
+                   "message\n                    retval = None\n"
+                   "                else:\n"
+                   "                    retval = self._doc_to_object(ctx, cls,"
+                   " inst, validator)\n",
+                   "                retval = self._doc_to_object(ctx, cls, "
+                   "inst, validator)\n"), 'null-member-as-message'),
     Mutant('yaml-drops-polymorphic', 'R11', 'fire', _Y,
            in_func('YamlDocument.__init__',
                    "ignore_uncap, ignore_wrappers, complex_as, ordered, "
